@@ -140,7 +140,7 @@ TraceSpec == TraceInit /\ [][TraceNext]_tvars
 
 \* ---------------------------------------------------------------- every other logged query against the reference
 V == view
-Seen == l > 1
+Seen == l > 1 /\ V.full          \* light projections (Reset / Load of the enumeration) carry the maps only
 
 \* node and edge lists, iterators, counts, end points, leaves
 ViewLists ==
@@ -181,7 +181,7 @@ ViewPairs ==
     \A i \in DOMAIN V.pairs :
       LET p == V.pairs[i]  a == p[1]  b == p[2] IN
       /\ IF RelD(a, b) = {} THEN p[3] = -2 ELSE p[3] \in RelD(a, b)
-      /\ IF RelAny(a, b) = {} THEN p[4] = -2 ELSE p[4] \in RelAny(a, b)
+      /\ p[4] = -3 \/ (IF RelAny(a, b) = {} THEN p[4] = -2 ELSE p[4] \in RelAny(a, b))     \* -3 = not asked
 
 \* list, degree and end-point queries on an absent node / edge all raise
 ViewAbsent == Seen => V.absn = 0
